@@ -32,8 +32,25 @@ def windowTrace (w : Window) (c : Int) (x : List (List Int)) : List (List Int) :
   | .maskInf => wtrace (maskOps (· == (-1 : Int)) c (-1)) (WState.start x.flatten []) w.steps
   | .diagInfZero => (wtrace (diagOps c (0 : Int)) (WState.start x ()) w.steps).map List.flatten
 
+/-- the block is run with step `k` raising: final content of the shared array and whether
+control has left the block -/
+def windowRaise (w : Window) (c : Int) (k : Nat) (x : List (List Int)) : List Int × Bool :=
+  let ch := (List.replicate k false) ++ [true]
+  match w.form with
+  | .maskInf =>
+      let r := wexec (maskOps (· == (-1 : Int)) c (-1)) (WState.start x.flatten []) w.steps ch
+      (r.cur, r.left)
+  | .diagInfZero =>
+      let r := wexec (diagOps c (0 : Int)) (WState.start x ()) w.steps ch
+      (r.cur.flatten, r.left)
+
 def answer (toks : List String) : String :=
   match toks with
+  | ["wraise", site, c, k, content] => match findWindow site with
+      | none => "no-window"
+      | some w =>
+        let r := windowRaise w (c.toInt?.getD 0) k.toNat! (intMat content)
+        showInts r.1 ++ "|" ++ (if r.2 then "1" else "0")
   | ["wok"] => if windowsOK StructC06.windows then "1" else "0"
   | ["woffenders"] => let o := windowOffenders StructC06.windows
       if o.isEmpty then "-" else join o ","
